@@ -46,7 +46,7 @@ def main():
         ext = exts[data[0] % len(exts)]
         body = data[1:]
         state["n"] += 1
-        rel = "mid/offender" + ext
+        rel = "offender" + ext  # in the project root: analysed before the siblings in pkg/
         proj.write(rel, body)
         try:
             vs, sw, exc = c11.lib_run(proj.root)
